@@ -54,7 +54,10 @@ def check_readspec(ctx, repo):
         return
     jname, (jst, juses) = next(iter(used.items()))
     accx = jst.value.func.value if isinstance(jst.value.func, ast.Attribute) else (jst.value.args[0] if jst.value.args else None)
-    ctx.need(isinstance(accx, ast.Name), 'readspec: argsort argument is not a name')
+    if not isinstance(accx, ast.Name):
+        ctx.fail('C16.INV-PERM', f, jst, 'permutation ' + src(jst.value),
+                 'the final permutation is `%s`: argsort of a rearranged accumulator is not the inverse of the read-order map' % src(jst.value))
+        return
     extra = [k for k in jst.value.keywords if k.arg not in ('kind',)] + list(jst.value.args if isinstance(jst.value.func, ast.Attribute) else jst.value.args[1:])
     defs = [(d, v) for d, v in fa.defs(accx) if d is not None]      # 'possibly unbound' (zero files) is not a definition
     shapes = []
@@ -126,10 +129,23 @@ def check_readspec(ctx, repo):
                 ok = isinstance(first, ast.Name) and first.id == jname and all(isinstance(r, ast.Slice) and r.lower is None and r.upper is None for r in rest)
             ctx.check('C16.REORDER-ALL', ok, f, st, 'reorder: %s' % src(st),
                       msg='a result array is not re-indexed along axis 0 by %s: %s' % (jname, src(st)), construct='reorder stmt ' + src(st))
-    # both branches present: dict-of-columns and plain arrays
+    # every leaf branch of the loop re-indexes something by j
+    def reorders(st):
+        return isinstance(st, ast.Assign) and isinstance(st.value, ast.Subscript) and any(isinstance(x, ast.Name) and x.id == jname for x in ast.walk(st.value.slice))
+
+    def covered(stmts):
+        for st in stmts:
+            if reorders(st):
+                return True
+            if isinstance(st, ast.If) and covered(st.body) and covered(st.orelse):
+                return True
+            if isinstance(st, ast.For) and covered(st.body):
+                return True
+        return False
     has_dict = any(isinstance(n, ast.If) and 'isinstance' in src(n.test) and 'dict' in src(n.test) for n in walk_local(loop))
-    ctx.check('C16.REORDER-ALL', has_dict and n_assign >= 2, f, loop, 'both the array branch and the dict-of-columns branch are re-indexed (%d statements)' % n_assign,
-              msg='the reorder loop no longer covers both plain arrays and dicts of columns', construct='reorder branches')
+    ctx.check('C16.REORDER-ALL', has_dict and covered(loop.body), f, loop,
+              'every branch of the reorder loop (plain arrays, dict columns of either rank) re-indexes by %s (%d statements)' % (jname, n_assign),
+              msg='some branch of the reorder loop does not re-index its arrays by %s: those rows stay in file-read order' % jname, construct='reorder branches')
     # coefficient vectors
     body = f.node.body
     for cname in ('allcoeff0', 'allcoeff1'):
